@@ -140,6 +140,10 @@ void __wrap_psUnlockMutex(psMutex_t *mutex)
             struct timespec ts;
             ts.tv_sec = 0;
             ts.tv_nsec = 20000 + (long) ((x >> 33) % 380000);   /* 20 .. 400 microseconds */
+            if (((x >> 12) & 7) == 0)
+            {
+                ts.tv_nsec = 1000000 + (long) ((x >> 33) % 2000000);   /* one in eight: 1 .. 3 milliseconds */
+            }
             tl_yields++;
             nanosleep(&ts, NULL);
             return;
